@@ -1617,7 +1617,8 @@ class RlaHistogram(Family):
         x = np.array(case["a"])
         r = RunLengthArray.from_array(x)
         for what, f in (("np.histogram(rla)", lambda y: np.histogram(y)), ("np.histogram(rla, 7)", lambda y: np.histogram(y, 7)),
-                        ("np.histogram(rla, 5, (0, 10))", lambda y: np.histogram(y, 5, (0, 10)))):
+                        ("np.histogram(rla, 5, (0, 10))", lambda y: np.histogram(y, 5, (0, 10))),
+                        ("np.histogram(rla, 3, (1, 6))", lambda y: np.histogram(y, 3, (1, 6)))):
             try:
                 got = f(r)
             except Exception as e:
